@@ -275,6 +275,9 @@ pub enum MultiProofVerificationError {
     PathsOutOfOrder,
     /// Extra siblings were provided.
     TooManySiblings,
+    /// The multi-proof is structurally inconsistent: the depths, terminals and the number of
+    /// siblings do not fit together.
+    Malformed,
 }
 
 #[derive(Debug, Clone)]
@@ -479,6 +482,12 @@ fn verify_range<H: NodeHasher>(
         // at a terminal node, 'siblings' will contain all unique
         // nodes, hash them up, and return that
         let terminal_path = &paths[0];
+        if terminal_path.depth < start_depth
+            || terminal_path.terminal.path().len() < terminal_path.depth
+            || siblings.len() < terminal_path.depth - start_depth
+        {
+            return Err(MultiProofVerificationError::Malformed);
+        }
         let unique_len = terminal_path.depth - start_depth;
 
         let node = hash_path::<H>(
@@ -502,15 +511,28 @@ fn verify_range<H: NodeHasher>(
     let start_path = &paths[0];
     let end_path = &paths[paths.len() - 1];
 
+    if start_path.terminal.path().len() < start_depth || end_path.terminal.path().len() < start_depth
+    {
+        return Err(MultiProofVerificationError::Malformed);
+    }
+
     let common_bits = shared_bits(
         &start_path.terminal.path()[start_depth..],
         &end_path.terminal.path()[start_depth..],
     );
 
     let common_len = start_depth + common_bits;
-    // TODO: if `common_len` == 256 the multi-proof is malformed. error
-
     let uncommon_start_len = common_len + 1;
+
+    // every path of the range must reach the bit the range is bisected on, and the common
+    // siblings must be there.
+    if paths
+        .iter()
+        .any(|p| p.terminal.path().len() < uncommon_start_len)
+        || siblings.len() < common_bits
+    {
+        return Err(MultiProofVerificationError::Malformed);
+    }
 
     // bisect `paths` by finding the first path which starts with the right bit set.
     let search_result = paths.binary_search_by(|item| {
@@ -526,6 +548,10 @@ fn verify_range<H: NodeHasher>(
     // furthermore, the left and right slices must be non-empty because start/end exist and the
     // bisection is based off of them.
     let bisect_idx = search_result.unwrap_err();
+    if bisect_idx == 0 || bisect_idx == paths.len() {
+        // both halves are non-empty in a well-formed proof (see above).
+        return Err(MultiProofVerificationError::Malformed);
+    }
 
     if common_bits > 0 {
         verified_bisections.push(VerifiedBisection {
@@ -546,6 +572,10 @@ fn verify_range<H: NodeHasher>(
         verified_paths,
         verified_bisections,
     )?;
+
+    if siblings.len() < common_bits + left_siblings_used {
+        return Err(MultiProofVerificationError::Malformed);
+    }
 
     // now that we know how many siblings were used on the left, we can recurse into the right.
     let (right_node, right_siblings_used) = verify_range::<H>(
